@@ -18,6 +18,24 @@ type rcProbe struct {
 	dropped   [3]bool // the holder of reference j has decided to release it
 	target    *ccontainer.CContainer[int]
 	lastRel   func() // the released() callback handed to the latest resolver call
+	firstRel  func() // the released() callback handed to the first resolver call
+	// track: check that a value is released only for a reason. gen counts the invalidating
+	// events the harness has issued (context change, last reference dropped, the current value's
+	// own released callback); a value may be released if such an event was issued after it was
+	// produced, while one is in progress (pending), or if the resolver call that produced it
+	// was already superseded when it produced it (late result).
+	track   bool
+	gen     int
+	pending bool
+	bornGen [5]int
+	bornOld [5]bool
+}
+
+// invalidating runs op as an invalidating event of the harness.
+func (p *rcProbe) invalidating(op func()) {
+	vrt.Atomic(func() { p.pending = true })
+	op()
+	vrt.Atomic(func() { p.pending = false; p.gen++ })
 }
 
 // resolver returns value n with a release function that checks the C08 obligations.
@@ -30,6 +48,13 @@ func (p *rcProbe) resolver(mode int, errFail error) refcount.RefCountResolver[in
 			p.produced++
 			n = p.produced
 			p.lastRel = released
+			if n == 1 {
+				p.firstRel = released
+			}
+			if n < 5 {
+				p.bornGen[n] = p.gen
+				p.bornOld[n] = ctx.Err() != nil || p.pending
+			}
 		})
 		if mode == 2 {
 			// slow resolver: returns only after it was superseded / cancelled
@@ -45,6 +70,9 @@ func (p *rcProbe) resolver(mode int, errFail error) refcount.RefCountResolver[in
 				if n < 5 {
 					p.relCount[n]++
 					vrt.Assert(p.relCount[n] == 1, "value-released-twice")
+				}
+				if p.track && n < 5 {
+					vrt.Assert(p.pending || p.bornOld[n] || p.gen > p.bornGen[n], "value-released-without-being-invalidated")
 				}
 				vrt.Assert(cur != n, "value-released-while-in-target")
 				for j := 0; j < 3; j++ {
@@ -81,7 +109,8 @@ func (p *rcProbe) noLeak() {
 }
 
 // H_C08_Script: one driver, reference 0 added first, then two symbolic operations out of
-// {release ref0, add+release ref1, SetContext(B), ClearContext, released()}, with keepUnref
+// {release ref0, add+release ref1, SetContext(B), ClearContext, released(), the FIRST value's
+// released() again (stale)}, with keepUnref
 // symbolic; finally all references are released and the context is cleared: at quiescence every
 // value the resolver produced was released exactly once, never while in the target container
 // and never while a reference was still told it holds it.
@@ -92,32 +121,54 @@ func H_C08_Script() {
 	ctxB, cancelB := context.WithCancel(context.Background())
 	rc := refcount.NewRefCount[int](ctxA, keep, p.target, nil, p.resolver(0, nil))
 	ref0 := rc.AddRef(p.cb(0))
-	ops := [2]int{vrt.Int("op0", 0, 4), vrt.Int("op1", 0, 4)}
+	p.track = true
+	ops := [2]int{vrt.Int("op0", 0, 5), vrt.Int("op1", 0, 5)}
 	for i := 0; i < 2; i++ {
 		switch ops[i] {
 		case 0:
 			vrt.Atomic(func() { p.told[0], p.dropped[0] = 0, true }) // the holder gives the value up
-			ref0.Release()
+			p.invalidating(ref0.Release)
 		case 1:
 			r1 := rc.AddRef(p.cb(1))
 			vrt.Atomic(func() { p.told[1], p.dropped[1] = 0, true })
-			r1.Release()
+			last := false
+			vrt.Atomic(func() { last = p.dropped[0] })
+			if last {
+				p.invalidating(r1.Release) // the last reference goes
+			} else {
+				r1.Release()
+			}
 		case 2:
-			rc.SetContext(ctxB)
+			p.invalidating(func() { rc.SetContext(ctxB) })
 		case 3:
-			rc.ClearContext()
-		default:
+			p.invalidating(rc.ClearContext)
+		case 4:
 			var f func()
 			vrt.Atomic(func() { f = p.lastRel })
 			if f != nil {
-				f()
+				p.invalidating(f)
+			}
+		default:
+			// the released callback of the FIRST value, possibly long after that value was
+			// replaced: it must not touch a later value
+			var f func()
+			own := false
+			vrt.Atomic(func() { f, own = p.firstRel, p.produced == 1 })
+			if f != nil {
+				if own {
+					p.invalidating(f)
+				} else {
+					f()
+				}
 			}
 		}
 	}
 	vrt.AtQuiescence(func() {
 		vrt.Atomic(func() { p.told[0], p.dropped[0] = 0, true })
-		ref0.Release()
-		rc.ClearContext()
+		p.invalidating(func() {
+			ref0.Release()
+			rc.ClearContext()
+		})
 		cancelA()
 		cancelB()
 		vrt.AtQuiescence(func() { p.noLeak() })
